@@ -82,6 +82,16 @@ Theorem C17_file_acceptance : forall es, file_quantifier es = true -> exists cs,
 Proof. exact file_acceptance. Qed.
 Print Assumptions C17_file_acceptance.
 
+(* THE FULL STATEMENT FOR SOURCE FILES WITH SEVERAL DECLARATIONS ("each entity declaration yields ..."):
+   every declaration of an admissible file yields its own components - the file compiles to their
+   concatenation, in declaration order - and each part satisfies every clause of the specification for
+   its declaration *)
+Theorem C17_file_full_modulo_reserved : forall es, file_quantifier es = true ->
+  exists l, compile_file es = Ok (concat l)
+            /\ Forall2 (fun e cs => compile e = Ok cs /\ C17_spec e cs) es l.
+Proof. exact file_full_modulo_reserved. Qed.
+Print Assumptions C17_file_full_modulo_reserved.
+
 Theorem C17_acceptance : forall e, in_quantifier e = true -> reserved_free e = true -> exists cs, compile e = Ok cs.
 Proof. exact acceptance. Qed.
 Print Assumptions C17_acceptance.
@@ -602,4 +612,19 @@ Proof.
   split; [vm_compute; reflexivity|]. split; [vm_compute; reflexivity|].
   split; [eexists; split; [vm_compute; reflexivity|reflexivity]|].
   repeat split; try (vm_compute; reflexivity). repeat constructor.
+Qed.
+
+(* non-vacuity of the file theorems: the sample above and a second declaration of the same package *)
+Definition C17_sample2 : entity :=
+  mkE (bs "foo.v1") (bs "bar_item") []
+      [mkK (mkU (bs "barId") (KKey true None None) false false) false]
+      [mkU (bs "status") (KScalar 9 (bs "string")) false false]
+      [bs "NEW"] [mkEv (bs "Made") []] [] [] None [].
+Example C17_file_example :
+  file_quantifier [C17_sample; C17_sample2] = true
+  /\ exists l, compile_file [C17_sample; C17_sample2] = Ok (concat l) /\ map (@length component) l = [24; 15]%nat.
+Proof.
+  split; [vm_compute; reflexivity|].
+  exists [expand_with C17_sample [bs "FOO_S_STATUS_ACTIVE"]; expand_with C17_sample2 []].
+  split; vm_compute; reflexivity.
 Qed.
